@@ -817,7 +817,9 @@ pub fn apply(root: &mut Root, m: &mut M, op: Op, stats: &mut Stats) -> Result<bo
                         }
                     }
                     _ => {
-                        let (mut a, mut b) = (vec![0xEEu8; 1], vec![0xEEu8; 2]);
+                        // mode 5: destination slices of 1 and 2 bytes; mode 6: of 2 and 1 (the first one longer than a one-byte chunk)
+                        let (la, lb) = if mode == 5 { (1usize, 2usize) } else { (2, 1) };
+                        let (mut a, mut b) = (vec![0xEEu8; la], vec![0xEEu8; lb]);
                         let res = guarded!({
                             let mut bufs = [std::io::IoSliceMut::new(&mut a), std::io::IoSliceMut::new(&mut b)];
                             r.read_vectored(&mut bufs)
@@ -994,7 +996,7 @@ fn ops_at(root_is_take: bool, reader: bool, rem: usize, cur_limit: Option<usize>
             v.push(Op::Read(k));
             v.push(Op::Consume(k));
         }
-        for mode in 0..6u8 {
+        for mode in 0..7u8 {
             v.push(Op::ReadMore(mode));
         }
     }
@@ -1519,7 +1521,7 @@ pub fn run(tier: &str, parity_odd: bool, shard: usize, nshards: usize, prop: &st
                                 }
                                 // the rarer provided io::Read methods and the terminal structure checks after an
                                 // operation only in the thorough tier (from the initial state always)
-                                if tier != "thorough" && !seq.is_empty() && matches!(op, Op::ReadMore(3) | Op::ReadMore(4) | Op::ReadMore(5) | Op::PokeInner) {
+                                if tier != "thorough" && !seq.is_empty() && matches!(op, Op::ReadMore(3) | Op::ReadMore(4) | Op::ReadMore(5) | Op::ReadMore(6) | Op::PokeInner) {
                                     continue;
                                 }
                                 let mut s2 = seq.clone();
